@@ -39,6 +39,7 @@ pub fn repo_op() -> impl Strategy<Value = Op> {
         2 => any::<u16>().prop_map(Op::TailEdit),
         2 => any::<u16>().prop_map(Op::Rewrite),
         2 => any::<u16>().prop_map(Op::EditOldMtime),
+        2 => any::<u16>().prop_map(Op::MakeEmpty),
         1 => any::<u16>().prop_map(Op::BulkSmall),
     ]
 }
@@ -48,7 +49,7 @@ pub fn strategy() -> impl Strategy<Value = Case> {
         10 => repo_op().prop_map(Step::Repo),
         2 => (proptest::option::weighted(0.4, any::<u16>()), any::<bool>()).prop_map(|(i, p)| Step::Update(i, p)),
         6 => (proptest::option::weighted(0.4, any::<u16>()), proptest::option::weighted(0.5, any::<u16>()))
-            .prop_map(|(b, e)| Step::Analyze(b, if b.is_some() { e } else { None })),
+            .prop_map(|(b, e)| Step::Analyze(b, e)),
     ];
     (any::<bool>(), vec(step, 0..25)).prop_map(|(ignore_out, mut steps)| {
         // always end with an observation of the default form
@@ -135,7 +136,14 @@ pub fn check(case: &Case, w: usize) -> CheckResult {
                         }
                         (bc, ec)
                     }
-                    _ => (cp_commit, None),
+                    (None, Some(e)) => {
+                        // --end alone: the interval starts at the checkpoint commit
+                        let ec = pick(*e, h.commits.len());
+                        args.push("--end".into());
+                        args.push(h.commits[ec].0.clone());
+                        (cp_commit, Some(ec))
+                    }
+                    (None, None) => (cp_commit, None),
                 };
                 let argv: Vec<&str> = args.iter().map(|s| s.as_str()).collect();
                 let o = h.env.mr(&argv);
@@ -178,9 +186,12 @@ pub fn check(case: &Case, w: usize) -> CheckResult {
                     );
                 }
                 let filtered = cp_pending.keys().any(|k| !want.contains(k));
-                let interesting = h.moved || h.deleted || commit_after_cp || filtered || h.odd_name || b.is_some();
+                let interesting = h.moved || h.deleted || commit_after_cp || filtered || h.odd_name || b.is_some() || e.is_some();
                 if !want.is_empty() && interesting {
                     nontrivial = true;
+                }
+                if b.is_none() && e.is_some() {
+                    classes.insert("end-only");
                 }
                 if b.is_some() {
                     classes.insert(if e.is_some() { "begin+end" } else { "begin-only" });
@@ -198,6 +209,7 @@ pub fn check(case: &Case, w: usize) -> CheckResult {
         .class_if(h.big, "big-file")
         .class_if(h.tail_edit, "tail-edit")
         .class_if(h.old_mtime, "edit-with-old-mtime")
+        .class_if(h.empty_file, "empty-file")
         .class_if(h.work.len() > 100, "changes>100")
         .class_if(h.commits.len() > 2, "commits>=2")
         .class_if(!case.ignore_out, "out-dir-not-ignored")
